@@ -1,6 +1,8 @@
 //! unit: u01p
 //! properties: C01 C05
 //! note: convert_channel_err_internal (channelmanager.rs, whole function): of the errors a channel can answer a message with, only ChannelError::Close closes the channel - the close routine runs exactly once, with the error's own reason and text, and the channel is reported as to be dropped; every other error (Warn, WarnAndDisconnect, Ignore, Abort, SendError) is passed on unchanged, runs no close routine and keeps the channel
+//! note: MsgHandleErrInternal::from_chan_no_close (whole function): the action attached to an error that keeps the channel is the one its kind names (Warn: a warning is sent, the connection stays; WarnAndDisconnect: the connection is dropped with that warning; Ignore / Abort: nothing is said; Close / SendError: an error message), for this channel and with the error's own text
+//! trusted: told_to_the_peer: ChannelError re-declared with the source's variants (AbortReason a Copy skeleton whose into_tx_abort_msg / to_string are uninterpreted), ErrorAction extracted; R7: the or-pattern arm is one arm per alternative; String::clone has the std meaning (vstd)
 //! trusted: R5: the generic `Close: FnOnce(ClosureReason, &str) -> (..)` is instantiated with a recorder object (`close(reason, &msg)` is written `close.call(reason, &msg)`: a call through FnOnce, once); MsgHandleErrInternal::from_chan_no_close / from_finish_shutdown are recorders of their arguments; ChannelError is extracted (AbortReason, ClosureReason opaque); ShutdownResult, ChannelUpdate, NodeId opaque
 //! trusted: assume_specification for core::cmp::max / core::cmp::min (std definitions): present in every unit so that a change that introduces them is verified instead of being rejected by the tool
 use vstd::prelude::*;
@@ -54,5 +56,55 @@ impl MsgHandleErrInternal {
 //@with
     MsgHandleErrInternal::from_chan_no_close(ChannelError::Warn(msg), chan_id),
 //@end
+
+// ---- MsgHandleErrInternal::from_chan_no_close (whole): what the peer is told for an error that does not close the channel ----
+pub mod told_to_the_peer {
+use vstd::prelude::*;
+use super::{ChannelId, ClosureReason};
+pub struct TxAbort { pub id: u64 }
+#[derive(Copy)] pub struct AbortReason { pub id: u64 }
+impl Clone for AbortReason { #[verifier::external_body] fn clone(&self) -> (r: Self) ensures r == *self { unimplemented!() } }
+pub uninterp spec fn abort_msg_of(r: AbortReason, c: ChannelId) -> TxAbort;
+pub uninterp spec fn abort_text(r: AbortReason) -> Seq<char>;
+impl AbortReason {
+    #[verifier::external_body] pub fn into_tx_abort_msg(self, channel_id: ChannelId) -> (r: TxAbort) ensures r == abort_msg_of(self, channel_id) { unimplemented!() }
+    #[verifier::external_body] pub fn to_string(&self) -> (r: String) ensures r@ == abort_text(*self) { unimplemented!() }
+}
+pub enum ChannelError { Ignore(String), Warn(String), WarnAndDisconnect(String), Abort(AbortReason), Close((String, ClosureReason)), SendError(String) }
+pub enum Level { Warn, Other }
+pub struct WarningMessage { pub channel_id: ChannelId, pub data: String }
+pub struct ErrorMessage { pub channel_id: ChannelId, pub data: String }
+//@extract lightning/src/ln/msgs.rs :: enum ErrorAction
+//@end
+pub mod logger { pub use super::Level; }
+pub struct LightningError { pub err: String, pub action: ErrorAction }
+pub struct ShutdownResult {}
+pub struct MsgHandleErrInternal { pub err: LightningError, pub closes_channel: bool, pub shutdown_finish: Option<ShutdownResult>, pub tx_abort: Option<TxAbort> }
+pub open spec fn text_of(e: ChannelError) -> Seq<char> {
+    match e { ChannelError::Ignore(m) => m@, ChannelError::Warn(m) => m@, ChannelError::WarnAndDisconnect(m) => m@, ChannelError::Abort(r) => abort_text(r), ChannelError::Close((m, _)) => m@, ChannelError::SendError(m) => m@ }
+}
+impl MsgHandleErrInternal {
+//@extract lightning/src/ln/channelmanager.rs :: impl MsgHandleErrInternal :: fn from_chan_no_close
+//@strip msgs
+//@r7
+//@ret r
+//@ensures P C01,C15 an-error-that-does-not-close-the-channel-tells-the-peer-exactly-what-its-kind-says-a-warning-is-sent-a-disconnecting-warning-drops-the-connection-an-ignored-one-says-nothing
+    !r.closes_channel, r.shutdown_finish is None, r.err.err@ == text_of(err),
+    r.tx_abort == (match err { ChannelError::Abort(reason) => Some(abort_msg_of(reason, channel_id)), _ => None }),
+    match err {
+        ChannelError::Warn(m) => r.err.action matches ErrorAction::SendWarningMessage { msg, .. } && msg.channel_id == channel_id && msg.data@ == m@,
+        ChannelError::WarnAndDisconnect(m) => r.err.action matches ErrorAction::DisconnectPeerWithWarning { msg } && msg.channel_id == channel_id && msg.data@ == m@,
+        ChannelError::Ignore(_) => r.err.action is IgnoreError,
+        ChannelError::Abort(_) => r.err.action is IgnoreError,
+        ChannelError::Close((m, _)) => r.err.action matches ErrorAction::SendErrorMessage { msg } && msg.channel_id == channel_id && msg.data@ == m@,
+        ChannelError::SendError(m) => r.err.action matches ErrorAction::SendErrorMessage { msg } && msg.channel_id == channel_id && msg.data@ == m@,
+    },
+//@mutant a_plain_warning_drops_the_connection
+    ChannelError::Warn(msg) => LightningError { err: msg.clone(), action: msgs::ErrorAction::SendWarningMessage { msg: msgs::WarningMessage { channel_id, data: msg }, log_level: Level::Warn, }, },
+//@with
+    ChannelError::Warn(msg) => LightningError { err: msg.clone(), action: msgs::ErrorAction::DisconnectPeerWithWarning { msg: msgs::WarningMessage { channel_id, data: msg }, }, },
+//@end
+}
+}
 }
 fn main() {}
